@@ -1,5 +1,5 @@
 """C03 Captured outputs are exactly what the executing code sent."""
-from ..recprops import RecorderCheck, consts, K, replay_file
+from ..recprops import RecorderCheck, consts, K, opts, replay_file
 
 CATS = {'pbout', 'recout', 'store_keys', 'store_values'}
 INVS = ['TypeOK', 'OutputsExact', 'OneEntryPerCall', 'SameOutputs', 'IdleClean']
@@ -41,6 +41,10 @@ def run(rep, tier, seed):
             chk.generate('gen2', gen_consts(2), cassettes=('memory', 'file'), n_conc=2, sample=2500, cap=4000)
             chk.generate('gen3', gen_consts(3, InCalls=[], OutAliases=['oa1'], OutResults=[('val', 'v1')], Ends=['ret']),
                          cassettes=('memory',), n_conc=1, sample=3000, cap=5000)
+            chk.generate('afterfail', gen_consts(1, MaxPSteps=2, MaxRuns=3, Modes=['free', 'same'], InOpts=[opts()],
+                                                 OutOpts=[opts()], InCalls=[('ia1', 1), ('ia1', 2)], OutAliases=['oa1'],
+                                                 Vals=['v1'], OutResults=[('val', 'v1')], Ends=['ret']),
+                         cassettes=('memory',), n_conc=1, sample=2500, cap=4000)
             chk.generate('deep11', deep_consts(11), cassettes=('memory', 's3'), n_conc=1, sample=300, cap=500,
                          invariants=['TypeOK'], max_states=600000)
         else:
